@@ -113,6 +113,8 @@ func (cs *gcpClientStream) SendMsg(m interface{}) error {
 			return err
 		}
 		cs.ClientStream = realCS
+		// A failed earlier attempt must not outlive the stream: RecvMsg would keep returning it.
+		cs.initStreamErr = nil
 		cs.signalReady()
 	}
 	cs.Unlock()
